@@ -4,7 +4,7 @@ from trie.exceptions import NodeOverrideError
 
 from ..bgen import BHistory, make_pool, make_values, probe_keys
 from ..bworld import BWorld, conflicts
-from ..core import Violation, hx, unhx
+from ..core import Violation, deep, hx, unhx
 from ..models.binref import BLANK_HASH, RefBin, bits_of
 
 ID = "C12"
@@ -35,6 +35,7 @@ PROBES = [f"kv-split-top{a}-old{b}-new{c}" for a in (0, 1) for b in (0, 1) for c
     "injected-failure-state-unchanged",
     "earlier-root-read-back",
     "reopened-at-earlier-root",
+    "value-is-a-node-hash",
 ]
 FAULTS = ["write-fail-applied", "write-fail-not-applied", "withhold-node", "crash-reopen"]
 COMPONENTS = {
@@ -128,6 +129,13 @@ class World(BWorld):
     # -- commands ------------------------------------------------------------------
     def op_set(self, cmd):
         k, v = unhx(cmd["k"]), unhx(cmd["v"])
+        if "vh" in cmd:
+            # the value is the hash of some node in this very database (an older root,
+            # another trie's root): what a state trie storing storage roots does
+            keys = sorted(self.db.raw())
+            if keys:
+                v = keys[cmd["vh"] % len(keys)]
+                self.st.probe("value-is-a-node-hash")
         t = self.trie
         root_before = t.root_hash
         conflict = conflicts(self.model, k)
@@ -323,7 +331,7 @@ def generate(rng):
     g = BHistory(rng, pool, values, probes)
     p_fault = rng.choice([0.0, 0.1, 0.2, 0.3])
     cmds = []
-    for _ in range(rng.choice([8, 12, 20, 30, 45, 60])):
+    for _ in range(rng.choice(deep([8, 12, 20, 30, 45, 60], [8, 16, 30, 60, 100, 160]))):
         m = g.mutation()
         if m["op"] != "reopen" and rng.random() < p_fault:
             cmds.append(add_fault(rng, m))
